@@ -66,6 +66,8 @@ pub trait ArchX: Archetype + Sized + 'static {
     fn borrow_set(b: &Self::Borrow<'_>, col: usize, val: u64);
     fn col_get_slice(a: &mut Self, col: usize) -> Vec<(u64, u64)>;
     fn col_borrow_slice(a: &Self, col: usize) -> Vec<(u64, u64)>;
+    /// lengths of the MUTABLE slice accessors of column `col`: (get_slice_mut, borrow_slice_mut)
+    fn col_mut_lens(a: &mut Self, col: usize) -> (usize, usize);
     fn set_get_slice_mut(a: &mut Self, idx: usize, col: usize, val: u64) -> bool;
     fn set_borrow_slice_mut(a: &Self, idx: usize, col: usize, val: u64) -> bool;
     fn rows_iter(a: &mut Self) -> Vec<(EntityAny, Row)>;
@@ -131,6 +133,16 @@ macro_rules! impl_archx {
             fn col_borrow_slice(a: &Self, col: usize) -> Vec<(u64, u64)> {
                 let mut i = 0usize;
                 $( if i == col { return a.borrow_slice::<$C>().iter().map(tv).collect(); } i += 1; )*
+                let _ = i;
+                panic!("bad column")
+            }
+            fn col_mut_lens(a: &mut Self, col: usize) -> (usize, usize) {
+                let mut i = 0usize;
+                $( if i == col {
+                    let g = a.get_slice_mut::<$C>().len();
+                    let b = a.borrow_slice_mut::<$C>().len();
+                    return (g, b);
+                } i += 1; )*
                 let _ = i;
                 panic!("bad column")
             }
